@@ -7,7 +7,7 @@
 //  - EXACT: solves with the stored matrix (or with the operator it is given, column by column)
 //    by dense LU with partial pivoting in long double (class O: apply(K x) = x within 1e-9).
 //
-// usage: record_composite <mode>     mode: schur | schurO | pattern | cpr | cprO | defl | deflmt | reuse
+// usage: record_composite <mode>     mode: schur | schurO | pattern | cpr | cprO | defl | deflmt | reuse | schurK
 #include <vrec.hpp>
 #include <deque>
 #include <map>
@@ -26,6 +26,9 @@
 #include <amgcl/solver/cg.hpp>
 #include <amgcl/solver/bicgstab.hpp>
 #include <amgcl/solver/gmres.hpp>
+#include <amgcl/solver/fgmres.hpp>
+#include <amgcl/solver/lgmres.hpp>
+#include <amgcl/preconditioner/dummy.hpp>
 #include <sys/wait.h>
 #include <signal.h>
 #include <omp.h>
@@ -345,12 +348,85 @@ static void schurO_case(vr::rng &g, const crsd &K, const std::vector<char> &pm, 
         auto &oc = reg<1>().opcols;
         for (size_t j = 0; j < oc.size(); ++j) for (int i = 0; i < np; ++i) sworst = std::max(sworst, fabsl((ld)oc[j][i] - S[i][j]));
     }
+    // the matrix-free Schur complement as an operator: y = beta y + alpha S x and r = rhs - S x against the dense S
+    ld operr = 0, reserr = 0;
+    if (!singular) {
+        const double alphas[] = {1, -1, 2.5}, betas[] = {0, 1, -0.5};
+        for (double alpha : alphas) for (double beta : betas) {
+            std::vector<double> xv(np), y0(np); for (auto &v : xv) v = g.range(-8, 8) / 4.0; for (auto &v : y0) v = g.range(-8, 8) / 2.0;
+            backend::numa_vector<double> x(xv), y(y0), r(np);
+            backend::spmv(alpha, P, x, beta, y);
+            backend::residual(y0, P, x, r);
+            ld scale = 1; for (int i = 0; i < np; ++i) { ld sx = 0; for (int j = 0; j < np; ++j) sx += S[i][j] * xv[j]; scale = std::max(scale, fabsl(sx)); }
+            for (int i = 0; i < np; ++i) {
+                ld sx = 0; for (int j = 0; j < np; ++j) sx += S[i][j] * xv[j];
+                operr = std::max(operr, fabsl((ld)y[i] - (beta * (ld)y0[i] + alpha * sx)) / scale);
+                reserr = std::max(reserr, fabsl((ld)r[i] - ((ld)y0[i] - sx)) / scale);
+            }
+        }
+        if (reg<0>().singular) singular = true;
+    }
     vr::obj o; o.str("k", "schurO").str("tag", tag).i("n", n).i("np", np).i("type", type).i("adjust", adjust).b("simplec", simplec).b("singular", singular)
-              .i("err", e12(worst)).i("serr", e12(sworst)).str("pattern", pattern);
+              .i("err", e12(worst)).i("serr", e12(sworst)).i("operr", e12(operr)).i("reserr", e12(reserr)).str("pattern", pattern);
     // does Kpp have a stored diagonal entry in every row?
     bool ppdiag = true; for (int i = 0; i < n; ++i) if (pm[i]) { bool d = false; for (ptrdiff_t p = K.ptr[i]; p < K.ptr[i + 1]; ++p) if (K.col[p] == i) d = true; ppdiag &= d; }
     o.b("ppdiag", ppdiag);
     put(o);
+}
+static std::shared_ptr<crsd> dominant_matrix(vr::rng &g, int n, const std::vector<char> &pm, bool pdiag);
+// exact U (probe), the pressure system solved by a restarted Krylov method on the matrix-free Schur complement
+// (small restart length: the solver calls backend::residual(rhs, S, x, r) with x != 0 at every restart)
+template <class Krylov> static void schurK_case(vr::rng &g, const crsd &K, const std::vector<char> &pm, int type, int adjust, bool simplec, const char *kname, int M) {
+    typedef make_solver<preconditioner::dummy<BE>, Krylov> PS;
+    typedef preconditioner::schur_pressure_correction<UProbe, PS> SK;
+    const int n = K.nrows; int np = 0; for (char c : pm) np += c ? 1 : 0; const int nu = n - np;
+    reg<0>().reset();
+    typename SK::params prm; prm.pmask = pm; prm.type = type; prm.adjust_p = adjust; prm.approx_schur = false; prm.simplec_dia = simplec;
+    prm.psolver.solver.M = M; prm.psolver.solver.tol = 1e-12; prm.psolver.solver.maxiter = 400;
+    vr::obj o; o.str("k", "schurK").str("krylov", kname).i("M", M).i("n", n).i("np", np).i("type", type).i("adjust", adjust).b("simplec", simplec);
+    try {
+        SK P(K, prm);
+        std::vector<int> idx(n); { int a = 0, b = 0; for (int i = 0; i < n; ++i) idx[i] = pm[i] ? a++ : b++; }
+        auto D = dense_of(K);
+        std::vector<std::vector<ld>> Duu(nu, std::vector<ld>(nu)), Dup(nu, std::vector<ld>(np)), Dpu(np, std::vector<ld>(nu)), S(np, std::vector<ld>(np));
+        for (int i = 0; i < n; ++i) for (int j = 0; j < n; ++j) { ld v = D[i][j]; if (pm[i]) { if (pm[j]) S[idx[i]][idx[j]] = v; else Dpu[idx[i]][idx[j]] = v; } else { if (pm[j]) Dup[idx[i]][idx[j]] = v; else Duu[idx[i]][idx[j]] = v; } }
+        DenseLU luu; luu.factor(Duu); bool singular = !luu.ok;
+        if (luu.ok) for (int j = 0; j < np; ++j) { std::vector<ld> c(nu); for (int i = 0; i < nu; ++i) c[i] = Dup[i][j]; auto w = luu.solve(c); for (int i = 0; i < np; ++i) { ld t = 0; for (int k = 0; k < nu; ++k) t += Dpu[i][k] * w[k]; S[i][j] -= t; } }
+        DenseLU ls; ls.factor(S); if (!ls.ok) singular = true;
+        ld worst = 0;
+        for (int rep = 0; rep < 2 && !singular; ++rep) {
+            std::vector<double> xs(n); for (auto &v : xs) v = g.range(-8, 8) / 4.0;
+            std::vector<double> f = type == 1 ? matvec(K, xs) : xs;
+            backend::numa_vector<double> rhs(f), out(n); for (int i = 0; i < n; ++i) out[i] = 0;
+            P.apply(rhs, out);
+            if (reg<0>().singular) { singular = true; break; }
+            ld scale = 1; for (double v : f) scale = std::max<ld>(scale, fabsl(v));
+            if (type == 1) { for (int i = 0; i < n; ++i) worst = std::max(worst, fabsl((ld)out[i] - xs[i]) / scale); }
+            else {
+                std::vector<ld> u(nu), p(np), fu(nu), fp(np);
+                for (int i = 0; i < n; ++i) { if (pm[i]) { p[idx[i]] = out[i]; fp[idx[i]] = f[i]; } else { u[idx[i]] = out[i]; fu[idx[i]] = f[i]; } }
+                for (int i = 0; i < nu; ++i) { ld t = -fu[i]; for (int j = 0; j < nu; ++j) t += Duu[i][j] * u[j]; for (int j = 0; j < np; ++j) t += Dup[i][j] * p[j]; worst = std::max(worst, fabsl(t) / scale); }
+                for (int i = 0; i < np; ++i) { ld t = -fp[i]; for (int j = 0; j < np; ++j) t += S[i][j] * p[j]; worst = std::max(worst, fabsl(t) / scale); }
+            }
+        }
+        o.b("singular", singular).i("err", e12(worst)).str("exc", "");
+    } catch (const std::exception &e) { o.b("singular", false).i("err", 0).str("exc", e.what()); }
+    put(o);
+}
+static void mode_schurK() {
+    vr::rng g(vr::env_seed() + 1810);
+    int reps = vr::env_int("VERIF_REPS", vr::thorough() ? 20 : 5);
+    for (int r = 0; r < reps; ++r) {
+        int n = g.range(12, vr::thorough() ? 60 : 36);
+        auto Ms = masks_for(g, n);
+        for (size_t mi = 0; mi < 3; ++mi) for (int adjust = 0; adjust < 3; ++adjust) for (int type = 1; type <= 2; ++type) {
+            auto K = dominant_matrix(g, n, Ms[mi], true);
+            int which = (r + (int)mi + adjust + type) % 3; bool sc = g.coin();
+            if (which == 0) schurK_case<solver::gmres<BE>>(g, *K, Ms[mi], type, adjust, sc, "gmres", 3);
+            else if (which == 1) schurK_case<solver::fgmres<BE>>(g, *K, Ms[mi], type, adjust, sc, "fgmres", 3);
+            else schurK_case<solver::lgmres<BE>>(g, *K, Ms[mi], type, adjust, sc, "lgmres", 4);
+        }
+    }
 }
 static std::shared_ptr<crsd> dominant_matrix(vr::rng &g, int n, const std::vector<char> &pm, bool pdiag) {
     std::vector<std::vector<std::pair<int, double>>> rows(n);
@@ -688,8 +764,22 @@ template <class Solver> static void defl_case(vr::rng &g, const crsd &A, int nve
             auto Ay = matvecl(A, yl); ld bnorm = sqrtl(bn);
             for (int j = 0; j < nvec; ++j) { ld s = 0, zn = 0; for (int i = 0; i < n; ++i) { s += (ld)Z[j * n + i] * ((ld)b[i] - Ay[i]); zn += (ld)Z[j * n + i] * Z[j * n + i]; } worst = std::max(worst, fabsl(s) / (sqrtl(zn) * (bnorm + 6 * sqrtl((ld)n) * 20))); }
         }
-        o.i("orth12", e12(worst)).str("exc", "");
-    } catch (const std::exception &e) { o.i("iters", 0).i("rel12", 0).i("rep12", 0).i("orth12", 0).str("exc", e.what()); }
+        o.i("orth12", e12(worst));
+        // the public init() called again on the same object (same data): the object has to behave like a fresh one
+        ld reorth = 0, redx = 0;
+        {
+            std::vector<double> y(n); for (auto &v : y) v = (g.unit() - 0.5) * 6;
+            backend::numa_vector<double> bb(b), y1(y), y2(y);
+            ds.project(bb, y1);
+            ds.init(A, typename BE::params());
+            ds.project(bb, y2);
+            std::vector<ld> yl(n); ld ym = 1; for (int i = 0; i < n; ++i) { yl[i] = y2[i]; ym = std::max(ym, fabsl((ld)y1[i])); redx = std::max(redx, fabsl((ld)y2[i] - (ld)y1[i])); }
+            redx /= ym;
+            auto Ay = matvecl(A, yl); ld bnorm = sqrtl(bn);
+            for (int j = 0; j < nvec; ++j) { ld sd = 0; for (int i = 0; i < n; ++i) sd += (ld)Z[j * n + i] * ((ld)b[i] - Ay[i]); reorth = std::max(reorth, fabsl(sd) / bnorm); }
+        }
+        o.i("reorth12", e12(reorth)).i("redx12", e12(redx)).str("exc", "");
+    } catch (const std::exception &e) { o.i("iters", 0).i("rel12", 0).i("rep12", 0).i("orth12", 0).i("reorth12", 0).i("redx12", 0).str("exc", e.what()); }
     put(o);
 }
 // One solver object, built for A0, then asked to solve with ANOTHER matrix A1 through the
@@ -824,6 +914,7 @@ int main(int argc, char **argv) {
     else if (mode == "defl") mode_defl();
     else if (mode == "deflmt") mode_deflmt();
     else if (mode == "reuse") mode_reuse();
+    else if (mode == "schurK") mode_schurK();
     else { std::cerr << "unknown mode\n"; return 2; }
     vr::obj o; o.str("e", "End"); vr::emit(o.done());
     return 0;
